@@ -864,6 +864,13 @@ def _c05_exec_body(v, code, n):
             # and the original really has such entries.
             if any(_nonsplit_zero_width(c) for _p, c in refs.walk_codes(code)):
                 sub = "trace_events:repeated_line_event_from_zero_width_entry"
+            else:
+                import ops_prog
+                if any(ops_prog.mid_instruction_entries(c)[0] for _p, c in refs.walk_codes(code)):
+                    # the other known <=3.9 finding: an lnotab entry inside an instruction opens a line
+                    # window at its opcode unit, so the tracer reports a line there (and the previous
+                    # line again afterwards); the normalized code has the entry at the next instruction
+                    sub = "trace_events:repeated_line_event_from_mid_instruction_entry"
         v.violate("behaviour", sub, "trace events differ at #%d: %r vs %r" % (i, e1[i:i + 2], e2[i:i + 2]))
     nline = sum(1 for e in e1 if e[0] == "line")
     ncodes = len(set(e[1] for e in e1))
